@@ -8,8 +8,24 @@ class C17(Prop):
     title = "Identifier conversion helpers produce the 3GPP encodings and invert exactly"
     lean_module = "Stgutg.Props.C17"
     gen = []
-    theorems = []
-    domains = [Domain("conv", 400, 20000)]
+    theorems = [
+        "Stgutg.Props.C17.C17_plmn",
+        "Stgutg.Props.C17.C17_plmn_defined",
+        "Stgutg.Props.C17.C17_snssai_sst",
+        "Stgutg.Props.C17.C17_snssai_sd",
+        "Stgutg.Props.C17.C17_amfid",
+        "Stgutg.Props.C17.C17_amfid_fields_invert",
+        "Stgutg.Props.C17.C17_tla_v4",
+        "Stgutg.Props.C17.C17_tla_v6",
+        "Stgutg.Props.C17.C17_tla_dual",
+        "Stgutg.Props.C17.C17_tla_roundtrip",
+        "Stgutg.Props.C17.C17_tla_spec_inverts",
+        "Stgutg.Props.C17.C17_pco_roundtrip",
+        "Stgutg.Props.C17.C17_pco_unmarshal_total",
+        "Stgutg.Props.C17.C17_pco_is_ts24008",
+        "Stgutg.Props.C17.C17_dnn",
+    ]
+    domains = [Domain("conv", 4000, 200000)]
     rule = ("conv: PlmnIDToNas (boundary digits x positions, random, malformed strings); SnssaiToNas (every SST 0..255 x SD "
             "absent/present, int32 edges, bad SD text); AmfIdToNas (field boundaries, random ids, malformed text, and op amfid-range: "
             "EVERY id of 17 whole regions in quick / all 256 regions = all 2^24 ids in thorough, each checked to recombine to the id); "
@@ -17,8 +33,17 @@ class C17(Prop):
             "octets); IPAddressToNgap / IPAddressToString / round trip (IPv4, IPv6 with zero runs / small groups / v4-mapped, dual, "
             "non-canonical spellings, 46 malformed texts, odd bit lengths); Dnn; and the standard-library calls themselves (x-*); "
             "non-trivial = the call returned a value; distinct by op line")
-    trusted_base = []
-    assumptions = []
+    trusted_base = [
+        'Model/Convert.lean is a hand model of nasConvert/{PlmnId,Snssai,AmfId,ProtocolConfigurationOptions}.go, ngapConvert/IpAddress.go, util_3gpp/3gpp_type.go tied by the conv domain',
+        'encoding/hex.DecodeString, net.ParseIP, net.IP.String (and IP.To4/To16/net.IPv4, modelled concretely) are EXTERNALS: every theorem quantifies over an arbitrary Ext; the transport-layer-address theorems assume of it exactly V4Text / V6Text (ParseIP reads the text as the address and IP.String prints the address as that text, i.e. the text is canonical); the S-NSSAI and AMF-ID theorems assume hex.DecodeString returns the three octets. Model/NetExt.lean re-implements the three calls (Go 1.23 netip parser/printer) for the comparator only and is itself compared with the real functions (ops x-hexdec, x-parseip, x-ipstr, 46 malformed texts included)',
+        'bytes.Buffer / binary.Write / binary.Read of uint8, uint16 (big endian) and []byte are modelled by list operations in pcoMarshal / pcoLoop',
+        'Spec/Convert3gpp.lean: my transcription of TS 24.501 9.11.2.8 (S-NSSAI lengths 1 and 4), TS 23.003 2.10.1 (AMF identifier), TS 38.414 5.1 (transport layer address), TS 24.008 10.5.6.3 (PCO), DNN as length+value',
+    ]
+    assumptions = [
+        "PCO: every unit's LengthOfContents equals len(Contents) (hence 0..255 octets); Marshal writes the two independently, so inconsistent units are outside the property (they are still compared model vs implementation)",
+        'S-NSSAI: 0 <= SST <= 255 and SD empty or the hex text of 3 octets; AMF-ID: the text is the 6-hex-digit form of a 24-bit number; IP texts are canonical (see trusted base)',
+    ]
+    partial_note = ('no theorem is partial. The AMF-ID theorem C17_amfid covers all 2^24 identifiers by arithmetic on the three octets (UInt16 shift/mask lemmas + omega), not by enumeration; the exhaustive enumeration is done on the implementation side only (op amfid-range).')
 
     def key(self, op, impl, model, spec):
         t = op.split(" ")
